@@ -99,8 +99,15 @@ def spi_slave_partner(pads, width):
             self.sync += If(csn, n.eq(0)).Elif(fall, n.eq(n + 1))
             idx = Signal(max=2 * width + 5)
             self.comb += idx.eq(n + fall)
-            bits = Array([self.resp[width - 1 - i] if i < width else 0 for i in range(2 * width + 5)])
-            self.comb += If(~csn, pads.miso.eq(bits[idx])).Else(pads.miso.eq(1))
+            shadow = Signal(width)                  # response word is taken over while the slave is deselected
+            self.sync += If(csn, shadow.eq(self.resp))
+            bits = Array([shadow[width - 1 - i] if i < width else 0 for i in range(2 * width + 5)])
+            # garble: a slave whose output is only valid from the falling edge until one cycle after the rising edge
+            # (inverted during the rest of the high phase); a mode-0 master samples at the rising edge and must not care
+            self.garble = Signal()
+            inv = Signal()
+            self.comb += inv.eq(self.garble & pads.clk & clk_d)
+            self.comb += If(~csn, pads.miso.eq(bits[idx] ^ inv)).Else(pads.miso.eq(1))
 
     return Partner()
 
